@@ -431,6 +431,18 @@ func (fr *Frame) callBySpecCommon(fn *ssa.Function, sp *FuncSpec, sig *types.Sig
 		}
 		sort.Strings(names)
 		hid := ""
+		var calleeFW fieldWrites
+		if fn != nil && fn.Blocks != nil && inScope(fn) {
+			if fw := funcFieldWrites(fn, map[*ssa.Function]bool{}); fw["*"] == nil {
+				calleeFW = fw
+			}
+		}
+		if reach["*"] && calleeFW != nil {
+			// the parameter types reach everything, but the callee's stores are known field by field
+			havocCtr++
+			hid = fmt.Sprintf("havoc$%d", havocCtr)
+			havocFieldWrites[hid] = calleeFW
+		}
 		if !reach["*"] {
 			havocCtr++
 			hid = fmt.Sprintf("havoc$%d", havocCtr)
@@ -441,6 +453,9 @@ func (fr *Frame) callBySpecCommon(fn *ssa.Function, sp *FuncSpec, sig *types.Sig
 				}
 			}
 			havocReach[hid] = heapReachStructs(ptypes)
+			if calleeFW != nil {
+				havocFieldWrites[hid] = calleeFW
+			}
 			var das []directArg
 			for i, a := range args {
 				if i < len(ptypes) {
